@@ -40,7 +40,7 @@ Print Assumptions C04_one_draw_per_handled_message.
    identifiers (255+i, as the crate hands them out in a fresh process) equals
    the trace under identifiers continuing from an earlier simulation. *)
 Example C04_nonvacuous :
-  let input := [42; 3; 100; 7; 50; 0; 200; 3; 2; 5; 0; 6; 9; 1; 4; 3; 40; 5; 2; 0; 2; 2; 0; 2; 0; 1] in
+  let input := [42; 3; 100; 7; 50; 0; 200; 3; 2; 5; 0; 6; 9; 1; 4; 3; 40; 2; 1; 5; 2; 0; 2; 2; 0; 2; 0; 1] in
   run input = [1; 1; 5; 0; 5; 6; 0; 2; 0; 1; 9; 4; 1; 0; 0; 1; 105; 5; 0; 2; 0; 2; 155; 4; 0; 2; 0; 0; 356; 3; 0; 0; 1] /\
   run_with (fun i => 1000 + 7 * i) input = run input.
 Proof. vm_compute. split; reflexivity. Qed.
